@@ -93,6 +93,7 @@ pub static FAIL_MMAP: AtomicBool = AtomicBool::new(false);
 pub static FAIL_SOCKET: AtomicBool = AtomicBool::new(false);
 pub static FAIL_BIND: AtomicBool = AtomicBool::new(false);
 pub static FAIL_LISTEN: AtomicBool = AtomicBool::new(false);
+pub static FAIL_EPOLL_ADD: AtomicBool = AtomicBool::new(false);
 
 pub struct Installed(*mut Ctx);
 impl Drop for Installed {
@@ -599,6 +600,12 @@ pub unsafe extern "C" fn epoll_create1(fl: i32) -> i32 {
 }
 #[no_mangle]
 pub unsafe extern "C" fn epoll_ctl(ep: i32, op: i32, fd: i32, ev: *mut libc::epoll_event) -> i32 {
+    if op == libc::EPOLL_CTL_ADD && FAIL_EPOLL_ADD.load(Ordering::SeqCst) {
+        // the kernel refuses the registration (per-user watch limit reached)
+        rec(|| Ev::EpollCtl { ep, op, fd, r: -1 });
+        set_errno(libc::ENOSPC);
+        return -1;
+    }
     let r = real!("epoll_ctl", unsafe extern "C" fn(i32, i32, i32, *mut libc::epoll_event) -> i32)(ep, op, fd, ev);
     let e = errno();
     rec(|| Ev::EpollCtl { ep, op, fd, r });
